@@ -33,6 +33,11 @@ LIT_OK = [s for s in HOSTILE if "$(" not in s and "${" not in s and "\\" not in 
 PREFIXES = ["-p", "--opt", "--opt=", "-x y", "-'q", "--a b=", "$P", "-;", "+"]
 SEPS = [",", " ", ";", ":", "' '", ", ", "|", "$", "a b"]
 NAMES = ["a", "b", "c", "ab", "a1", "B", "Z", "x_y", "zz", "m", "aB", "k9"]
+# floats as a job file spells them (JSON numbers); Python's repr(float) reproduces only a few of them
+FLITS = ["0.00001", "2.50", "1e3", "1E3", "1e+3", "1.5e-3", "15e-1", "1.50e1", "0.0000001", "-0.0000001", "0.0", "-0.0",
+         "100.0", "0.000000", "1e-7", "2.5e10", "-1.5E+2", "0.5", "3.14", "1e0", "5e-1", "1234567.125", "0.1e1", "1E-5",
+         "123e-2", "1.25e2", "0e3", "-2.50", "10.0", "0.10", "0.000001", "0.0000010", "7.0e-6", "12.5e-7", "1000000.0"]
+FLIT_RE = re.compile(r"^(-?)(\d+)(?:\.(\d+))?(?:[eE]([+-]?\d+))?$")
 FNAMES = ["out.txt", "o ut.txt", "it's.txt", 'q"uote.txt', "$x.txt", "a;b.txt", "sn☃w.txt", "-dash", "~t", "s*r", "a&b", "#h"]
 
 
@@ -47,6 +52,17 @@ def _b(s):
 
 def _repr(v):
     return str(v)
+
+
+def _job_json(v):
+    """the input object as JSON text; a float is written with the spelling the case carries"""
+    if isinstance(v, dict) and "flt" in v:
+        return v["flt"]
+    if isinstance(v, dict):
+        return "{" + ", ".join(json.dumps(k) + ": " + _job_json(x) for k, x in v.items()) + "}"
+    if isinstance(v, list):
+        return "[" + ", ".join(_job_json(x) for x in v) + "]"
+    return json.dumps(v, ensure_ascii=False)
 
 
 class C30(Prop):
@@ -65,7 +81,10 @@ class C30(Prop):
                   "The models are tied to the code by running generated tools (1..6 bound inputs, every modelled option, "
                   "hostile strings) through StreamFlow and cwltool for real and comparing each model with its "
                   "implementation; the oracle compares what the two tool processes received (argv, environment, "
-                  "stdin/stdout/stderr targets).  PARTIAL: binding on array items, records, File arguments, floats, "
+                  "stdin/stdout/stderr targets).  Floats are modelled by their job-file spelling (sign, digits, fraction, exponent) "
+                  "rendered through decimal.Decimal as both runners do (dec_repr; C30_float_spelling_kept: a spelling "
+                  "without exponent and not below 1e-6 is passed unchanged); spellings of more than 15 significant digits are "
+                  "outside.  PARTIAL: binding on array items, records, File arguments, "
                   "JavaScript valueFrom/position are outside the models (item bindings are exercised by the oracle "
                   "only); for an array binding with shellQuote:false under ShellCommandRequirement spec_* follows the CWL "
                   "text (nothing quoted) whereas cwltool still quotes the items (known finding); the base64 wrapper of "
@@ -76,7 +95,8 @@ class C30(Prop):
     TECHNIQUE = ("Coq proof (two executable models + equivalence and shell-quoting theorems) + vm_compute correspondence "
                  "of each model with its implementation + differential oracle StreamFlow vs cwltool on real runs")
     RULE = ("a case = one generated CWL v1.2 CommandLineTool (0..3 arguments, 1..6 inputs with inputBinding: "
-            "string/int/boolean/optional/array types, position ties and negatives, prefix, separate, itemSeparator, "
+            "string/int/boolean/float/double/optional/array types (floats written into the job file with spellings Python's "
+            "repr does not reproduce: 0.00001, 2.50, 1e3, 1.50e1, -0.0000001 ...), position ties and negatives, prefix, separate, itemSeparator, "
             "shellQuote, valueFrom literal/$(self)/$(inputs.x); ShellCommandRequirement in ~40%; EnvVarRequirement, "
             "stdin/stdout/stderr in ~35%; item-level bindings in ~12%) + an input object whose strings come from a list "
             "of shell metacharacters, blanks, quotes, unicode and the empty string. Each case is run by both runners. "
@@ -144,6 +164,8 @@ class C30(Prop):
             return rng.choice([0, 1, 7, 10, -1, -25, 123456789, 2**31 - 1])
         if base == "boolean":
             return rng.random() < 0.6
+        if base in ("float", "double"):
+            return {"flt": rng.choice(FLITS)}
         raise ValueError(typ)
 
     def gen_case(self, rng, kind=None):
@@ -154,7 +176,7 @@ class C30(Prop):
         inputs, job = [], {}
         for nm in names:
             typ = rng.choice(["string", "string", "string", "int", "boolean", "string?", "int?", "string[]", "string[]",
-                              "int[]"])
+                              "int[]", "float", "double", "float", "float?", "float[]", "double[]"])
             if kind == "item":
                 typ = rng.choice(["string", "string[]", "int", "string"])
             arr = typ.endswith("[]")
@@ -311,7 +333,7 @@ class C30(Prop):
             with open(os.path.join(d, "tool.cwl"), "w", encoding="utf-8") as f:
                 json.dump(tool, f, ensure_ascii=False, indent=1)
             with open(os.path.join(d, "job.json"), "w", encoding="utf-8") as f:
-                json.dump(job, f, ensure_ascii=False)
+                f.write(_job_json(job))
             with open(os.path.join(d, "sf.yml"), "w") as f:
                 f.write(SF_YML)
             os.chdir(d)
@@ -450,6 +472,10 @@ class C30(Prop):
             return f"(VBool {coq_bool(v)})"
         if isinstance(v, int):
             return f"(VInt {coq_Z(v)})"
+        if isinstance(v, dict):
+            m = FLIT_RE.match(v["flt"])
+            return (f"(VDec {coq_bool(m.group(1) == '-')} {coq_str(m.group(2))} {coq_str(m.group(3) or '')} "
+                    f"{coq_opt(None if m.group(4) is None else int(m.group(4)), coq_Z)})")
         return f"(VStr {coq_str(v)})"
 
     def coq_case(self, c, o):
